@@ -213,12 +213,17 @@ func failDirective(kind string) vhk.Directive {
 		return vhk.Directive{Patch: `{"operation":"Create","object":{"apiVersion":"v1","kind":"ConfigMap","metadata":{"name":"preexisting","namespace":"default"}}}`, Metrics: `{"name":"verif_ok_metric","action":"add","value":1}`}
 	case "bad-metrics-with-valid-patch":
 		return vhk.Directive{Metrics: `{"name":"x","action":"set","value":`, Patch: `{"operation":"CreateOrUpdate","object":{"apiVersion":"v1","kind":"ConfigMap","metadata":{"name":"made-by-failing-run","namespace":"default"}}}`}
+	case "bad-admission-response":
+		// "its patch/metric/response output cannot be parsed": the response files are read back after every run
+		return vhk.Directive{Admission: `{"allowed":tr`}
+	case "bad-conversion-response":
+		return vhk.Directive{Conversion: `{"failedMessage":`}
 	case "patch-cannot-apply":
 		return vhk.Directive{Patch: `{"operation":"Create","object":{"apiVersion":"v1","kind":"ConfigMap","metadata":{"name":"preexisting","namespace":"default"}}}`}
 	}
 	return vhk.Directive{Exit: 1}
 }
 
-var failKinds = []string{"exit1", "exit2", "killed", "bad-metrics", "invalid-metric-op", "bad-patch", "patch-cannot-apply", "bad-patch-with-valid-metrics", "patch-cannot-apply-with-valid-metrics", "bad-metrics-with-valid-patch"}
+var failKinds = []string{"exit1", "exit2", "killed", "bad-metrics", "invalid-metric-op", "bad-patch", "patch-cannot-apply", "bad-patch-with-valid-metrics", "patch-cannot-apply-with-valid-metrics", "bad-metrics-with-valid-patch", "bad-admission-response", "bad-conversion-response"}
 
 func joinLabels(l []string) string { return strings.Join(l, ",") }
